@@ -180,7 +180,7 @@ func (this *Dataset) Insert(ctx context.Context, id uuid.UUID, value math.Vector
 		// Proxy the request to the partition leader
 		client, err := this.getDataManagerClient(ctx, partition.randomNodeId())
 		if err != nil {
-			return nil
+			return err
 		}
 		_, err = client.Insert(ctx, &pb.InsertRequest{
 			DatasetId: this.id.Bytes(),
@@ -204,7 +204,7 @@ func (this *Dataset) Update(ctx context.Context, id uuid.UUID, value math.Vector
 		// Proxy the request to the partition leader
 		client, err := this.getDataManagerClient(ctx, partition.randomNodeId())
 		if err != nil {
-			return nil
+			return err
 		}
 		_, err = client.Update(ctx, &pb.UpdateRequest{
 			DatasetId: this.id.Bytes(),
@@ -224,7 +224,7 @@ func (this *Dataset) Remove(ctx context.Context, id uuid.UUID) error {
 		// Proxy the request to the partition leader
 		client, err := this.getDataManagerClient(ctx, partition.randomNodeId())
 		if err != nil {
-			return nil
+			return err
 		}
 		_, err = client.Remove(ctx, &pb.RemoveRequest{
 			DatasetId: this.id.Bytes(),
